@@ -18,7 +18,8 @@ EVAL_COUNTER = "conversions"
 RULE = ("random grids: shapes 1x1x1 .. 97x65x33 incl. value counts = 1..5 (mod 6) and != 0 (mod 3); origins/spacings "
         "over +-1e4 down to 1e-6; values over 1e-300..1e300 with signs and zeros, 1-6 values per DX line; 0..300 PQR "
         "atoms; APBS-style comments and trailer. Non-trivial: value count not divisible by 6 or non-cubic shape or "
-        "skewed axes; distinct = (shape, count mod 6, values-per-line, atom count class, entry point)")
+        "skewed axes; distinct = (shape, count mod 6, values-per-line, atom count class, entry point)"
+        ' Round-3/4 additions: declared DX element type double / float; upper-case and signed exponents, tab / multi-blank separators.')
 ASSUMPTIONS = ["the generator's own DX writer follows the APBS layout read_dx documents (keyword-led lines)",
                "'printed precision' = the formats the cube writer uses: %.5E for values, %.6f for geometry"]
 MIN = {"quick": {"conversions": 250, "values_compared": 200000, "tail_not_multiple_of_6": 120},
